@@ -4522,6 +4522,9 @@ class Pack:
                     self._bitmap_path,
                 )
                 return None
+            except FileNotFoundError:
+                # No bitmap exists for this pack
+                return None
         return self._bitmap
 
     def ensure_bitmap(
